@@ -97,11 +97,28 @@ func runC10(c *Ctx) {
 		c.Floor("R10.1", 6)
 		for _, tn := range []string{"lineIgnore", "fileIgnore"} {
 			fn := c.Func("lintcmd", "(*"+tn+").match")
-			var rets []*ssa.Return
-			for _, r := range Returns(fn) {
-				if !isBoolConst(r.Results[0], false) {
-					rets = append(rets, r)
+			// the places where the result can be true: a return of a non-false value, or the predecessor
+			// that feeds a non-false value into a returned result variable
+			type site struct {
+				v  ssa.Value
+				at ssa.Instruction
+			}
+			var rets []site
+			var expand func(v ssa.Value, at ssa.Instruction, depth int)
+			expand = func(v ssa.Value, at ssa.Instruction, depth int) {
+				if phi, ok := v.(*ssa.Phi); ok && depth < 3 {
+					for i, e := range phi.Edges {
+						pred := phi.Block().Preds[i]
+						expand(e, pred.Instrs[len(pred.Instrs)-1], depth+1)
+					}
+					return
 				}
+				if !isBoolConst(v, false) {
+					rets = append(rets, site{v, at})
+				}
+			}
+			for _, r := range Returns(fn) {
+				expand(r.Results[0], r, 0)
 			}
 			if len(rets) == 0 {
 				c.Undecided("%s has no return that can be true", fn)
@@ -117,7 +134,8 @@ func runC10(c *Ctx) {
 				call, ok := v.(*ssa.Call)
 				return ok && IsCallTo(call, lintcmdPkg+".makeCaseFoldedString") && Derives(call.Call.Args[0], IsFieldOf("runner.Diagnostic", "Category"))
 			})
-			for i, r := range rets {
+			for i, rs := range rets {
+				r := rs.at
 				sfx := "#" + itoa(i)
 				ok, p := MustPassEdges(fn, r, fileEq)
 				c.Check(FuncKey(fn)+"::true-requires-same-file"+sfx, r.Pos(), ok && len(fileEq) > 0, "a match requires the problem's file name to equal the directive's; path: %s", PathString(fn, p))
@@ -127,7 +145,7 @@ func runC10(c *Ctx) {
 				}
 				ok, p = MustPassEdges(fn, r, glob)
 				c.Check(FuncKey(fn)+"::true-requires-glob-match"+sfx, r.Pos(), ok && len(glob) > 0, "a match requires filepath.Match(check pattern, case-folded category) to succeed; path: %s", PathString(fn, p))
-				c.Check(FuncKey(fn)+"::returns-constant-true"+sfx, r.Pos(), isBoolConst(r.Results[0], true), "match returns true only as a constant on the matching path (no computed result that could be true elsewhere)")
+				c.Check(FuncKey(fn)+"::returns-constant-true"+sfx, r.Pos(), isBoolConst(rs.v, true), "match returns true only as a constant on the matching path (no computed result that could be true elsewhere)")
 			}
 			if tn == "lineIgnore" {
 				Instrs(fn, false, func(in ssa.Instruction) {
@@ -145,11 +163,10 @@ func runC10(c *Ctx) {
 	c.Rule("R10.2", func() {
 		c.Floor("R10.2", 4)
 		pd := c.Func("lintcmd", "parseDirectives")
-		hasReason := CmpEdges(pd, func(x, y ssa.Value) bool {
-			call, ok := x.(*ssa.Call)
-			k, isK := ConstInt(y)
-			return ok && isK && k == 2 && IsCallTo(call, "builtin.len") && Derives(call.Call.Args[0], IsFieldOf("SerializedDirective", "Arguments"))
-		}, func(rel string, truth bool) bool { return (rel == "<" && !truth) || (rel == ">=" && truth) })
+		hasReason := IntCmpConstEdges(pd, func(v ssa.Value) bool {
+			call, ok := v.(*ssa.Call)
+			return ok && IsCallTo(call, "builtin.len") && Derives(call.Call.Args[0], IsFieldOf("SerializedDirective", "Arguments"))
+		}, true, func(lo, hi int64) bool { return lo >= 2 })
 		if len(hasReason) == 0 {
 			c.Undecided("parseDirectives no longer tests len(args) < 2")
 		}
@@ -197,11 +214,10 @@ func runC10(c *Ctx) {
 		c.Check(FuncKey(pd)+"::reasonless-directive::compile-category", pd.Pos(), foundCat, "… in the compile category, which always affects the exit status")
 		// U1000's own handling
 		entry := c.Func("unused", "(*graph).entry")
-		uHas := CmpEdges(entry, func(x, y ssa.Value) bool {
-			call, ok := x.(*ssa.Call)
-			k, isK := ConstInt(y)
-			return ok && isK && k == 2 && IsCallTo(call, "builtin.len") && Derives(call.Call.Args[0], IsFieldOf("lint.Directive", "Arguments"))
-		}, func(rel string, truth bool) bool { return (rel == "<" && !truth) || (rel == ">=" && truth) })
+		uHas := IntCmpConstEdges(entry, func(v ssa.Value) bool {
+			call, ok := v.(*ssa.Call)
+			return ok && IsCallTo(call, "builtin.len") && Derives(call.Call.Args[0], IsFieldOf("lint.Directive", "Arguments"))
+		}, true, func(lo, hi int64) bool { return lo >= 2 })
 		m := 0
 		Instrs(entry, false, func(in ssa.Instruction) {
 			mu, ok := in.(*ssa.MapUpdate)
@@ -278,17 +294,60 @@ func runC10(c *Ctx) {
 			u, ok := cond.(*ssa.UnOp)
 			return ok && u.Op == token.MUL && IsFieldOf("lineIgnore", "Matched")(u.X), false
 		})
-		if len(fi.AnonFuncs) != 1 {
-			c.Undecided("filterIgnored: expected the couldHaveMatched closure")
+		// couldHaveMatched: the function (closure of filterIgnored, or a function it forwards to) that
+		// special-cases u1000
+		var chm *ssa.Function
+		for _, f := range DeepFuncs(fi, 2) {
+			if f == fi {
+				continue
+			}
+			has := false
+			Instrs(f, false, func(in ssa.Instruction) {
+				if bo, ok := in.(*ssa.BinOp); ok && (bo.Op == token.EQL || bo.Op == token.NEQ) {
+					if s, ok := constStringVal(bo.Y); ok && strings.EqualFold(s, "u1000") {
+						has = true
+					}
+					if s, ok := constStringVal(bo.X); ok && strings.EqualFold(s, "u1000") {
+						has = true
+					}
+				}
+			})
+			if has {
+				chm = f
+			}
 		}
-		chm := fi.AnonFuncs[0]
+		if chm == nil {
+			c.Undecided("filterIgnored: the couldHaveMatched predicate (the one that special-cases u1000) was not found")
+		}
+		leadsToChm := func(f *ssa.Function) bool {
+			if f == chm {
+				return true
+			}
+			for _, g := range DeepFuncs(f, 1) {
+				for _, ci := range Calls(g, false) {
+					if ci.Common().StaticCallee() == chm {
+						return true
+					}
+				}
+			}
+			return false
+		}
 		could := CondEdges(fi, func(cond ssa.Value) (bool, bool) {
 			call, ok := cond.(*ssa.Call)
 			if !ok {
 				return false, false
 			}
-			mc, ok := call.Call.Value.(*ssa.MakeClosure)
-			return ok && mc.Fn == chm, true
+			if callee := call.Call.StaticCallee(); callee != nil && leadsToChm(callee) {
+				return true, true
+			}
+			for x := range BackSlice(call.Call.Value, SliceOpts{}) {
+				if mc, ok := x.(*ssa.MakeClosure); ok {
+					if f, _ := mc.Fn.(*ssa.Function); f != nil && leadsToChm(f) {
+						return true, true
+					}
+				}
+			}
+			return false, false
 		})
 		found := false
 		Instrs(fi, false, func(in ssa.Instruction) {
@@ -316,8 +375,11 @@ func runC10(c *Ctx) {
 		enabled := CondEdges(chm, func(cond ssa.Value) (bool, bool) {
 			l, ok := cond.(*ssa.Lookup)
 			return ok && !l.CommaOk && Derives(l.X, func(v ssa.Value) bool {
-				fv, ok := v.(*ssa.FreeVar)
-				return ok && strings.Contains(fv.Type().String(), "map[")
+				switch v.(type) {
+				case *ssa.FreeVar, *ssa.Parameter:
+					return strings.Contains(v.Type().String(), "map[")
+				}
+				return false
 			}), true
 		})
 		for i, r := range Returns(chm) {
@@ -394,7 +456,7 @@ func runC10(c *Ctx) {
 		}
 		repFset := false
 		for _, v := range storedToField(rep, "runner.Diagnostic", "Position") {
-			if call, ok := v.(*ssa.Call); ok && Derives(call.Call.Args[0], IsFieldOf("loader.Package", "Fset")) {
+			if fsetV, _, ok := displayCall(v); ok && Derives(fsetV, IsFieldOf("loader.Package", "Fset")) {
 				repFset = true
 			}
 		}
@@ -402,9 +464,11 @@ func runC10(c *Ctx) {
 		// parseDirectives keys ignores by NodePosition
 		pd := c.Func("lintcmd", "parseDirectives")
 		byNode := false
-		for _, v := range storedToField(pd, "lintcmd.lineIgnore", "Line") {
-			if Derives(v, IsFieldOf("SerializedDirective", "NodePosition")) {
-				byNode = true
+		for _, f := range DeepFuncs(pd, 2) {
+			for _, v := range storedToField(f, "lintcmd.lineIgnore", "Line") {
+				if Derives(v, IsFieldOf("SerializedDirective", "NodePosition")) {
+					byNode = true
+				}
 			}
 		}
 		c.Check(FuncKey(pd)+"::line-from-NodePosition", pd.Pos(), byNode, "a line ignore applies to the line of the node the comment is attached to")
